@@ -277,7 +277,7 @@ def gen_warm_case(rng, base, idx):
             t = rng.randint(1, h.ntopics)
             p = rng.randrange(h.cnt[(c, t)])
             if (c, t, p) in h.boff:
-                h.boff[(c, t, p)] += rng.choice([1, 10, 100])
+                h.boff[(c, t, p)] = min(h.boff[(c, t, p)] + rng.choice([1, 10, 100]), 2 ** 63 - 1)
                 h.add("B", h.now, c, t, p, h.cnt[(c, t)], h.boff[(c, t, p)])
     h.add(rng.choice(["RW", "RW", "RJW"]), h.now)
     h.add("SL", h.now, 1250)
